@@ -720,7 +720,12 @@ func largeText(r *rng, n int, inputs []input, corpus []int) (string, int) {
 			}
 			return 2<<10 + r.intn(6<<10)
 		}
-		which, which2 := r.intn(5), r.intn(5)
+		// the small big one is any kind; the 66-100 KB one is always a kind whose content has
+		// backslashes (escaped string, escaped bytes, raw string) and comes second
+		which, which2 := r.intn(3), 2+r.intn(3)
+		if which2 <= which {
+			which2 = which + 1
+		}
 		is := func(i int) bool { return which == i || which2 == i }
 		id := strings.Repeat("LongIdentifier_", sz(is(0))/15)
 		fmt.Fprintf(&b, "SELECT %s, `%s`, '%s', b\"%s\", r'%s' FROM t WHERE x = '\\x41\\u00e9%s'", id, strings.Repeat("quoted ident ", sz(is(1))/13),
